@@ -6,7 +6,9 @@ back, back -> front), never to the socket it came from; (R15.2) when the capture
 same message is sent to the capture socket before the forward, in both arms, and every forward on the path has
 its capture copy; no forward happens outside the two select arms (no capture-less fast path); (R15.3) an Err
 from either recv ends proxy with that error; a failed send (capture or forward) ends it too (`?`), nothing is
-swallowed. Witness crate: a send-only socket is rejected as front/back end by the type system.
+swallowed (the outcome of every send is decided: no `let _ = x.send(m).await`); (R15.4) chain clause: distinct ROUTER keys
+(C04 R04.3), overwrite on reconnect (C04 R04.4, ROUTER/DEALER backend), no dropped ready event (C06 R06.1/R06.2/R06.5),
+re-evaluated. Witness crate: a send-only socket is rejected as front/back end by the type system.
 Does NOT decide select! fairness; both-ready schedules rely on C14."""
 from ..sym import show, walk_expr, canon
 from ..common import short
@@ -111,6 +113,16 @@ def run(ctx, f, rep):
                 elif cap_some is None:
                     rep.bad("R15.2", "R15.2|forward-without-capture-decision|from%d" % src,
                             "a forward happens on a path that never looked at the capture option: the capture socket misses this message", b.loc(p.events[i].bb))
+            # R15.3 every send's outcome is looked at (a `let _ = x.send(m).await` swallows a failed forward)
+            for i, ev in sends:
+                decided = any(e[0] == "discr" and any(y == ev.result for y in walk_expr(e[1])) and
+                              ((e[1][0] in ("call", "pure") and short(e[1][1]) == "branch") or e[1][0] in ("field", "downcast"))
+                              for (e, c, _, _) in p.conds[ev.ncond:])
+                later = [1 for e2 in p.events[i + 1:] if e2.kind in ("call", "yield")]
+                if not decided and p.end == "return" or (not decided and any(j > i for j, _ in sends)):
+                    rep.bad("R15.3", "R15.3|send-result-ignored", "the result of a send is never looked at on this path: a failed capture copy or forward is swallowed", b.loc(ev.bb))
+                elif decided:
+                    rep.ok("R15.3", "R15.3|send-result-ignored", "the result of every send is decided (`?` or match)", b.loc(ev.bb))
             # R15.3 errors end the function
             if p.end == "return":
                 rk = pathq.ret_kind(p)
@@ -141,8 +153,18 @@ def run(ctx, f, rep):
     c04.check_identity(f, sub)
     for o in sub.obls:
         (rep.ok if o.ok else rep.bad)("R15.4", o.key.replace("R04.3", "R15.4", 1), o.what, o.loc, o.detail)
+    # ... and that a client or worker that reconnects under the same identity replaces its old table entry (C04 R04.4 for the
+    # backend ROUTER and DEALER share): otherwise the forwarded reply is written to the dead connection
+    sub = Report("C15", rep.config)
+    c04.check_registration(f, sub)
+    n = 0
+    for o in sub.obls:
+        if "GenericSocketBackend" in o.key and o.rule == "R04.4":
+            n += 1
+            (rep.ok if o.ok else rep.bad)("R15.4", o.key.replace("R04.4", "R15.4", 1), o.what, o.loc, o.detail)
+    rep.floor("R15.4", "registration obligations of the ROUTER/DEALER backend", n, 3)
     sub = Report("C15", rep.config)
     c06.run(ctx, f, sub)
     for o in sub.obls:
-        if o.rule in ("R06.1", "R06.2"):
+        if o.rule in ("R06.1", "R06.2", "R06.5"):
             (rep.ok if o.ok else rep.bad)("R15.4", o.key.replace(o.rule, "R15.4", 1), o.what, o.loc, o.detail)
